@@ -264,6 +264,13 @@ def corner_ops(rng, spec, guarded):
     svs_r = sorted(s_ for s_ in spec["servers"] if s_ in reach_all)
     if free_st and svs_r:
         ops.append({"op": "setlink", "kind": "servers", "name": rng.choice(svs_r), "attr": "storage", "target": rng.choice(free_st)})
+    # the last step of a journey that still calls jobs loses them: the journey, hence its network, carries no job any more
+    for p in spec["system"]["usage_patterns"]:
+        ujn = spec["patterns"][p]["usage_journey"]
+        with_jobs = [s_ for s_ in spec["journeys"][ujn]["uj_steps"] if spec["steps"][s_]["jobs"]]
+        if len(set(with_jobs)) == 1 and len(spec["system"]["usage_patterns"]) >= 2:
+            ops.append({"op": "setlist", "kind": "steps", "name": with_jobs[0], "attr": "jobs", "items": []})
+            break
     # a usage pattern taken out of the system, or put (back) into it
     sys_pats = spec["system"]["usage_patterns"]
     outside = [p for p in spec["patterns"] if p not in sys_pats and spec["patterns"][p]["devices"]]
@@ -344,6 +351,25 @@ def gen_op_once(rng, spec, guarded, shared):
     return None
 
 
+def drain_ops(spec):
+    """the edits that empty, one step after the other, the job lists of the journey of a usage pattern whose network no
+    other usage pattern uses (and whose journey and steps are its own)"""
+    pats = spec["system"]["usage_patterns"]
+    if len(pats) < 2:
+        return []
+    for p in pats:
+        net, ujn = spec["patterns"][p]["network"], spec["patterns"][p]["usage_journey"]
+        if any(q != p and (spec["patterns"][q]["network"] == net or spec["patterns"][q]["usage_journey"] == ujn) for q in spec["patterns"]):
+            continue
+        steps = list(dict.fromkeys(spec["journeys"][ujn]["uj_steps"]))
+        if any(s_ in j["uj_steps"] for jn, j in spec["journeys"].items() if jn != ujn for s_ in steps):
+            continue
+        with_jobs = [s_ for s_ in steps if spec["steps"][s_]["jobs"]]
+        if with_jobs:
+            return [{"op": "setlist", "kind": "steps", "name": s_, "attr": "jobs", "items": []} for s_ in with_jobs]
+    return []
+
+
 def edit_vs_rebuild_shard(args):
     """C01: after every accepted edit of a random history the live system equals a fresh build"""
     seed, n_hist, n_ops, guarded, genkw = args
@@ -372,9 +398,12 @@ def edit_vs_rebuild_shard(args):
         out["shared"] += int(history.has_shared_job(spec))
         initial = totals_snapshot(live.rs.system)
         hist_ops = []
-        for step in range(n_ops):
-            op = None
-            if cornered and step < 2:
+        # every third history starts by taking the jobs out of a usage pattern that has its network to itself, step by
+        # step: that network ends up carrying no job at all
+        drain = drain_ops(live.spec) if h % 3 == 2 else []
+        for step in range(n_ops + len(drain)):
+            op = drain.pop(0) if drain else None
+            if op is None and cornered and step < 2:
                 op = corner_ops(rng, live.spec, guarded)
             if op is None:
                 op = gen_op(rng, live.spec, guarded)
